@@ -140,7 +140,7 @@ fn plan(p: &mut Plan<'_>) {
             let clauses = if p.ctx.prop == "C07" { journalsim::C07_CLAUSES } else { journalsim::C10_CLAUSES };
             p.part(journalsim::JournalSim { clauses }, 600_000, 60_000_000, "two-endpoint journal simulation: packet assemblies (built, trivial, abandoned) through drop/dup/reorder channels, receiver ACK generation at drawn capacities, acks / loss reports / fast retransmit / expiry on the virtual clock; non-trivial = some fault fired and packets were received and acknowledged; distinct = hash of the event history");
             if p.ctx.prop == "C07" {
-                p.part(netsim::NetSim { mode: netsim::Mode::C07 }, 400, 60_000, "whole-stack share: C02-style client/server runs (loss, duplication, reordering, delay, corruption, black holes, PTO probes, retransmission, closing) with a capturing event log on both endpoints; per connection object and packet-number space the numbers of the packets that leave the endpoint, in assembly order, must strictly increase and never repeat (0-RTT and 1-RTT share a space); non-trivial = a fault fired and the handshake or a stream progressed; distinct = hash of wire + application trace");
+                p.part(netsim::NetSim { mode: netsim::Mode::C07 }, 400, 40_000, "whole-stack share: C02-style client/server runs (loss, duplication, reordering, delay, corruption, black holes, PTO probes, retransmission, closing) with a capturing event log on both endpoints; per connection object and packet-number space the numbers of the packets that leave the endpoint, in assembly order, must strictly increase and never repeat (0-RTT and 1-RTT share a space); non-trivial = a fault fired and the handshake or a stream progressed; distinct = hash of wire + application trace");
             }
             p.assumptions = vec!["frames are u32 tags", "abandonment only before anything is recorded (the only one reachable through PacketWriter)", "gen_ack largest is a received, still tracked packet number", "a packet declared lost whose expiry passed may be forgotten by the journal"];
         }
@@ -149,16 +149,17 @@ fn plan(p: &mut Plan<'_>) {
             p.assumptions = vec!["TLS key material is not seeded (Ed25519 chain keeps message sizes fixed)", "single-threaded seeded executor: task order is permuted, polls never run truly concurrently"];
         }
         "C06" => {
-            p.part(netsim::NetSim { mode: netsim::Mode::C06 }, 120, 20_000, "whole-stack runs with a capturing qlog on both endpoints and 1..3 FlipSweep faults: for a drawn in-flight datagram the network delivers every single-bit corruption, every truncation, the original and a replay; packet logs of both vantage points are compared; non-trivial = a sweep fired and packets round-tripped; distinct = wire+app trace hash");
-            p.assumptions = vec!["only the system-level clauses are claimed (DESIGN §5 C06): the stack never initiates key updates and always uses 8-byte connection ids", "frame equality is judged on kind and the fields both vantage points log"];
+            p.part(netsim::NetSim { mode: netsim::Mode::C06 }, 120, 10_000, "whole-stack runs with a capturing qlog on both endpoints and 1..3 FlipSweep faults: for a drawn in-flight datagram the network delivers every single-bit corruption, every truncation, the original and a replay; packet logs of both vantage points are compared; non-trivial = a sweep fired and packets round-tripped; distinct = wire+app trace hash");
+            p.part(netsim::protsim::ProtSim, 20_000, 2_000_000, "component run: two endpoints with genuine keys (Initial secrets; Handshake and 1-RTT keys from a real in-memory TLS 1.3 handshake) assemble Initial (token 0..1000 bytes), Handshake and 1-RTT packets with the real PacketWriter for connection ids of 0..20 bytes, payloads from the sampling minimum to a full datagram and whatever packet-number length the encoder picks; key updates by either side when RFC 9001 6.1 allows; the network delays and reorders, drops, truncates, flips single bits (complete sweeps of chosen packets), reflects packets to their sender and presents them under a different packet number; the real receive path must recover every genuine packet whose number is decodable and whose key generation is current, next or previous, bit for bit, and silently discard everything else; non-trivial = a fault fired and a packet was recovered; distinct = hash of the send/receive history");
+            p.assumptions = vec!["netsim share: the stack never initiates key updates and always uses 8-byte connection ids, hence the component run", "frame equality in the netsim share is judged on kind and the fields both vantage points log", "component run: 0-RTT keys are not produced; a key generation two or more behind the receiver may be discarded (RFC 9001 6.5)"];
         }
         "C15" => {
-            p.part(netsim::NetSim { mode: netsim::Mode::C15 }, 700, 150_000, "whole-stack runs biased to the unvalidated phase: RSA chain (first server flight > 3x1200 bytes), client second-flight loss/truncation/duplication so the server retransmits while unvalidated; the network's per-address byte ledger is checked after every server send until the server first processes a Handshake packet; non-trivial = a fault fired and handshake progressed; distinct = trace hash");
+            p.part(netsim::NetSim { mode: netsim::Mode::C15 }, 700, 40_000, "whole-stack runs biased to the unvalidated phase: RSA chain (first server flight > 3x1200 bytes), client second-flight loss/truncation/duplication so the server retransmits while unvalidated; the network's per-address byte ledger is checked after every server send until the server first processes a Handshake packet; non-trivial = a fault fired and handshake progressed; distinct = trace hash");
             p.part(netsim::aasim::AaSim, 300_000, 30_000_000, "component run: one real AntiAmplifier<3> with its ArcSendWaker under generated histories of packet arrivals (sizes 0..1452), send bursts of 1..5 datagrams each cut to the credit read for it (bytes fed back per datagram, or per burst as Path::send_packets does), grants, aborts and a send task parking on CREDIT; after every credit read balance() is compared with the signed model 3*received - sent (exact while the contract is kept), an overdrawn burst must not wrap into an unlimited allowance, and a parked task must be woken by arrival / grant / abort; non-trivial = datagrams were sent and more than one packet arrived; distinct = hash of the op/result history");
             p.assumptions = vec!["bytes delivered to the server's socket from the client address are an upper bound of what the server may count as received", "validation instant = the server's first packet_received qlog event of type handshake", "component run: grant and abort are first-one-wins, as the type documents"];
         }
         "C17" => {
-            p.part(netsim::NetSim { mode: netsim::Mode::C17 }, 1200, 150_000, "whole-stack runs with a close event at a drawn virtual time (local close, peer close, both in the same millisecond, idle expiry with drawn timeouts incl. 0, path loss by blackhole) while drawn operations are parked (accept, open-until-blocked, datagram recv, handshaked, terminated) and streams are mid-transfer; completion times on the virtual clock, state order and silence after closing from qlog; non-trivial = a close/idle/path-loss event happened with operations parked; distinct = trace hash");
+            p.part(netsim::NetSim { mode: netsim::Mode::C17 }, 1200, 80_000, "whole-stack runs with a close event at a drawn virtual time (local close, peer close, both in the same millisecond, idle expiry with drawn timeouts incl. 0, path loss by blackhole) while drawn operations are parked (accept, open-until-blocked, datagram recv, handshaked, terminated) and streams are mid-transfer; completion times on the virtual clock, state order and silence after closing from qlog; non-trivial = a close/idle/path-loss event happened with operations parked; distinct = trace hash");
             p.assumptions = vec!["release bound after termination: 1 s + 6 RTT of virtual time", "idle clauses only on fault-free runs; the endpoint terminating first is judged against the negotiated timeout"];
         }
         "C19" => {
@@ -167,7 +168,7 @@ fn plan(p: &mut Plan<'_>) {
             p.assumptions = vec!["RFC 9221: max_datagram_frame_size bounds the whole frame (type, length, payload); the smallest encoding of a payload of n bytes is n+1", "an assembler offering at least payload+9 bytes of room must get the head datagram (any encoding fits); between payload+1 and payload+8 either answer is accepted", "network reordering is modelled as delay: the reader must return datagrams in arrival order"];
         }
         "C20" => {
-            p.part(netsim::NetSim { mode: netsim::Mode::C20 }, 250, 30_000, "each seeded whole-stack case (handshake, transfer, loss, close at a drawn time, idle expiry, path loss) is executed six times under exporter configurations no-op / discard-all / capturing / capturing+raw / filtered / shipped LegacySeqLogger into memory; wire and application traces must be identical; every captured event must serialise with the mandatory fields, parse back equal and convert to the legacy form without panicking; non-trivial = faults fired and progress; distinct = trace hash");
+            p.part(netsim::NetSim { mode: netsim::Mode::C20 }, 250, 15_000, "each seeded whole-stack case (handshake, transfer, loss, close at a drawn time, idle expiry, path loss) is executed six times under exporter configurations no-op / discard-all / capturing / capturing+raw / filtered / shipped LegacySeqLogger into memory; wire and application traces must be identical; every captured event must serialise with the mandatory fields, parse back equal and convert to the legacy form without panicking; non-trivial = faults fired and progress; distinct = trace hash");
             p.assumptions = vec!["event time stamps are wall-clock and excluded from comparisons", "for the legacy logger (own writer task) only the application trace is compared", "event-builder field-value enumeration is not claimed (input enumeration)"];
         }
         "C18" => {
@@ -197,7 +198,7 @@ fn plan(p: &mut Plan<'_>) {
             p.assumptions = vec!["legality of a forged frame is judged against what the target endpoint has emitted (advertised), not what was delivered"];
         }
         "C13" => {
-            p.part(ccsim::CcSim, 5_000, 500_000, "one real congestion controller (ArcCC: NewReno, RTT estimator, pacer, loss detection, PTO) on tokio's paused clock, ticked every 10 ms as Path::drive does; the case scripts sends in three spaces (sizes, ack-eliciting / in-flight flags, packet-number gaps), per-packet fates (deliver after a delay, drop, black hole), acknowledgement frames built from what reached the peer (gaps, range limits, stale, delayed beyond max_ack_delay, ECN-CE counts), handshake phase changes, anti-amplification flags and epoch discards on both roles; reference model = set of outstanding packets + RFC 9002 rules evaluated on the H1 snapshot after every call; drain phase without acks bounded to 120 virtual seconds; non-trivial = a fault fired and packets were acknowledged; distinct = hash of the call/result history");
+            p.part(ccsim::CcSim, 5_000, 1_000_000, "one real congestion controller (ArcCC: NewReno, RTT estimator, pacer, loss detection, PTO) on tokio's paused clock, ticked every 10 ms as Path::drive does; the case scripts sends in three spaces (sizes, ack-eliciting / in-flight flags, packet-number gaps), per-packet fates (deliver after a delay, drop, black hole), acknowledgement frames built from what reached the peer (gaps, range limits, stale, delayed beyond max_ack_delay, ECN-CE counts), handshake phase changes, anti-amplification flags and epoch discards on both roles; reference model = set of outstanding packets + RFC 9002 rules evaluated on the H1 snapshot after every call; drain phase without acks bounded to 120 virtual seconds; non-trivial = a fault fired and packets were acknowledged; distinct = hash of the call/result history");
             p.assumptions = vec!["loss threshold judged with 0.2% tolerance against 9/8 of the larger of smoothed and latest RTT, at least 1 ms", "RFC 9002 7.6 duration-based persistent congestion is accepted as a legitimate second reduction", "ack-eliciting-but-not-in-flight packets are not generated (unreachable through qbase::packet)"];
         }
         other => die(&format!("no check for property {other}")),
